@@ -177,6 +177,33 @@ func newMercPluginDS(in mobvIn, asked *bool) (ocr3types.MercuryPlugin, error) {
 	return p, err
 }
 
+// MaxObservationLength as declared by the real factory of that version
+func mercObservationLimit(ver int) int {
+	occ := mercury.StandardOnchainConfigCodec{}
+	ocb, err := occ.Encode(context.Background(), mercurytypes.OnchainConfig{Min: big.NewInt(0), Max: pow2(100)})
+	if err != nil {
+		fatal(err)
+	}
+	pc := ocr3types.MercuryPluginConfig{ConfigDigest: types.ConfigDigest{1}, N: 4, F: 1, OnchainConfig: ocb, OffchainConfig: offchainJSON("0")}
+	codec := &mercCodec{mode: "ok", maxLen: 4096}
+	ctx := context.Background()
+	var info ocr3types.MercuryPluginInfo
+	switch ver {
+	case 1:
+		_, info, err = mv1.NewFactory(nil, logger.Nop(), occ, codec1{codec}).NewMercuryPlugin(ctx, pc)
+	case 2:
+		_, info, err = mv2.NewFactory(nil, logger.Nop(), occ, codec2{codec}).NewMercuryPlugin(ctx, pc)
+	case 3:
+		_, info, err = mv3.NewFactory(nil, logger.Nop(), occ, codec3{codec}).NewMercuryPlugin(ctx, pc)
+	default:
+		_, info, err = mv4.NewFactory(nil, logger.Nop(), occ, codec4{codec}).NewMercuryPlugin(ctx, pc)
+	}
+	if err != nil {
+		fatal(err)
+	}
+	return info.Limits.MaxObservationLength
+}
+
 type mobvOut struct {
 	Kind  string `json:"kind"` // ok | err | panic
 	Bytes []byte `json:"bytes,omitempty"`
